@@ -68,7 +68,13 @@ class XMLTransformer(XMLGenerator, LexicalHandler):
         self._write("]]>")  # type: ignore
 
     def startDTD(self, name: str, public_id: str | None, system_id: str | None):
-        self._write(f'<!DOCTYPE {name} PUBLIC "{public_id}" "{system_id}">\n')  # type: ignore
+        if public_id:
+            external_id = f' PUBLIC "{public_id}" "{system_id}"'
+        elif system_id:
+            external_id = f' SYSTEM "{system_id}"'
+        else:
+            external_id = ""
+        self._write(f"<!DOCTYPE {name}{external_id}>\n")  # type: ignore
         return super().startDTD(name, public_id, system_id)
 
     def endDTD(self) -> object:
